@@ -38,7 +38,10 @@ Pool ==
      R("{ __type(name: \"UO\") { possibleTypes { name } } }", "", "-", "-", "possible_order"), \* 21 introspection of that union
      R("{ itl { __typename x } it { x } }", "", "-", "-", "-"),                             \* 22 interface resolved through IsTypeOf
      R("{ srl { r(y: 2) p } }", "", "-", "-", "-"),                                         \* 23 fields resolved by their source value, literal arguments
-     R("{ sr { r(e: RED) } srl { k: r(e: RED, y: 1) r(y: 3) } }", "", "-", "-", "-")        \* 24
+     R("{ sr { r(e: RED) } srl { k: r(e: RED, y: 1) r(y: 3) } }", "", "-", "-", "-"),       \* 24
+     R("{ a b }", "", "-", "thunkerr", "deferred_error_order"),                             \* 25 exactly two deferred failures
+     R("{ o { x y } n { x y } }", "", "-", "thunkerr", "deferred_error_order"),              \* 26 ... in nested objects
+     R("mutation { b a }", "", "-", "thunkerr", "deferred_error_order")                     \* 27
   >>
 
 VARIABLE hist
